@@ -4,19 +4,17 @@ From VLib Require Import RealTac.
 From P Require Import C03_gen.
 Open Scope R_scope.
 
+Lemma exp_m_lndiv m a c : 0 < a -> 0 < c -> exp (m * ln (a / c)) = exp (m * ln a) / exp (m * ln c).
+Proof. intros Ha Hc. exact (Rpower_div a c m Ha Hc). Qed.
+
 (* ---------------- Knowles ---------------- *)
 Lemma Knowles_q_lt k x : 0 < k -> -1 < x < 1 -> 0 < Rpower (1 + x) k < Rpower 2 k.
 Proof. intros Hk Hx. split; [apply Rpower_pos|apply Rlt_Rpower_l; lra]. Qed.
 
-Lemma Knowles_arg k x : 0 < k -> -1 < x < 1 -> 0 < 1 - Rpower 2 (- k) * Rpower (x + 1) k < 1.
+Lemma Knowles_arg k x : 0 < k -> -1 < x < 1 -> 0 < 1 - Rpower ((x + 1) / 2) k < 1.
 Proof.
-  intros Hk Hx. rewrite Rpower_neg. replace (x + 1) with (1 + x) by ring.
-  destruct (Knowles_q_lt k x Hk Hx) as [H1 H2]. pose proof (Rpower_pos 2 k) as H3.
-  assert (E : / Rpower 2 k * Rpower (1 + x) k = Rpower (1 + x) k / Rpower 2 k) by (field; lra). rewrite E.
-  assert (0 < Rpower (1 + x) k / Rpower 2 k) by (apply Rdiv_lt_0_compat; lra).
-  assert (Rpower (1 + x) k / Rpower 2 k < 1).
-  { apply Rmult_lt_reg_r with (Rpower 2 k); [lra|]. unfold Rdiv. rewrite Rmult_assoc, Rinv_l by lra. lra. }
-  lra.
+  intros Hk Hx. pose proof (Rpower_pos ((x + 1) / 2) k).
+  assert (Rpower ((x + 1) / 2) k < 1) by (apply Rpower_lt_1; lra). lra.
 Qed.
 
 Lemma Knowles_inv_tf rmin R_ k x : R_ <> 0 -> 0 < k -> -1 < x < 1 ->
@@ -24,12 +22,10 @@ Lemma Knowles_inv_tf rmin R_ k x : R_ <> 0 -> 0 < k -> -1 < x < 1 ->
 Proof.
   intros HR Hk Hx. unfold Knowles_inverse, Knowles_transform. cbv zeta.
   pose proof (Knowles_arg k x Hk Hx) as Ha.
-  set (A := 1 - Rpower 2 (- k) * Rpower (x + 1) k) in *.
+  set (A := 1 - Rpower ((x + 1) / 2) k) in *.
   replace ((rmin - (- R_ * ln A + rmin)) / R_) with (ln A) by (field; exact HR).
-  rewrite exp_ln by lra. unfold A. 
-  replace (1 - (1 - Rpower 2 (- k) * Rpower (x + 1) k)) with (Rpower 2 (- k) * Rpower (x + 1) k) by ring.
-  rewrite Rpower_neg.
-  replace (/ Rpower 2 k * Rpower (x + 1) k) with (Rpower ((x + 1) / 2) k) by (rewrite Rpower_div by lra; field; apply Rgt_not_eq, Rpower_pos).
+  rewrite exp_ln by lra. unfold A.
+  replace (1 - (1 - Rpower ((x + 1) / 2) k)) with (Rpower ((x + 1) / 2) k) by ring.
   rewrite Rpower_inv_k by lra. field.
 Qed.
 
@@ -42,10 +38,9 @@ Proof.
     assert (0 < (r - rmin) / R_) by (apply Rdiv_lt_0_compat; lra).
     replace ((rmin - r) / R_) with (- ((r - rmin) / R_)) by (field; lra). lra. }
   set (E := exp ((rmin - r) / R_)) in *.
-  replace (-1 + 2 * Rpower (1 - E) (1 / k) + 1) with (2 * Rpower (1 - E) (1 / k)) by ring.
-  rewrite <- Rpower_mult_distr by (try apply Rpower_pos; lra).
+  replace ((-1 + 2 * Rpower (1 - E) (1 / k) + 1) / 2) with (Rpower (1 - E) (1 / k)) by field.
   rewrite Rpower_inv_k' by lra.
-  rewrite Rpower_neg. replace (1 - / Rpower 2 k * (Rpower 2 k * (1 - E))) with E by (field; apply Rgt_not_eq, Rpower_pos).
+  replace (1 - (1 - E)) with E by ring.
   unfold E. rewrite ln_exp. field. lra.
 Qed.
 
@@ -56,12 +51,15 @@ Proof.
   destruct (Knowles_q_lt k x Hk Hx) as [H3 H2]. pose proof (Knowles_arg k x Hk Hx) as [Ha _].
   replace (1 + x) with (x + 1) in * by ring.
   rewrite Rpower_sub1 by lra.
-  revert H2 H3 Ha. rewrite Rpower_neg. unfold Rpower. intros H2 H3 Ha.
+  revert Ha. rewrite (Rpower_div (x + 1) 2 k) by lra. revert H2 H3. unfold Rpower. intros H2 H3 Ha.
   pose proof (exp_pos (k * ln 2)) as HT.
   set (E := exp (k * ln (x + 1))) in *. set (T := exp (k * ln 2)) in *.
-  auto_derive; fold E.
-  - repeat split; try exact I; lra.
-  - field. repeat split; lra.
+  assert (Hd : E / T < 1) by lra.
+  auto_derive; fold ((x + 1) / 2); rewrite (exp_m_lndiv k (x + 1) 2) by lra; fold E; fold T;
+  match goal with
+  | |- _ = _ => field; repeat split; lra
+  | |- _ => repeat split; try exact I; lra
+  end.
 Qed.
 
 Ltac knowles_setup k x Hk Hx :=
@@ -102,7 +100,7 @@ Qed.
 Lemma Knowles_range rmin R_ k x : 0 < R_ -> 0 < k -> -1 < x < 1 -> rmin < Knowles_transform rmin R_ k x.
 Proof.
   intros HR Hk Hx. unfold Knowles_transform. cbv zeta. pose proof (Knowles_arg k x Hk Hx) as [A1 A2].
-  assert (ln (1 - Rpower 2 (- k) * Rpower (x + 1) k) < 0) by (rewrite <- ln_1; apply ln_increasing; lra). nra.
+  assert (ln (1 - Rpower ((x + 1) / 2) k) < 0) by (rewrite <- ln_1; apply ln_increasing; lra). nra.
 Qed.
 
 Example Knowles_nonvacuous : 0 < 5/2 /\ -1 < 1/4 < 1.
